@@ -336,14 +336,35 @@ def _big_stack():
         pass
 
 
-def run_lines(exe, lines, timeout=600, shards=1, args=()):
+def run_lines(exe, lines, timeout=600, shards=1, args=(), _depth=0):
     """feed lines to exe (one per line), return list of output lines (same length) or raise"""
     if not lines:
         return []
     if shards <= 1 or len(lines) < 4 * shards:
         data = ('\n'.join(lines) + '\n').encode()
-        p = subprocess.run([exe] + list(args), input=data, stdout=subprocess.PIPE, stderr=subprocess.PIPE, timeout=timeout,
-                           preexec_fn=(_big_stack if os.sep + 'ocaml' + os.sep in exe else None))
+        is_model = os.sep + 'ocaml' + os.sep in exe
+        try:
+            p = subprocess.run([exe] + list(args), input=data, stdout=subprocess.PIPE, stderr=subprocess.PIPE, timeout=timeout,
+                               preexec_fn=(_big_stack if is_model else None))
+        except subprocess.TimeoutExpired as ex:
+            # a case that never returns must become a verdict, not a crash of the check: the lines received so far
+            # tell which case hangs (harness and runners flush one line per case); it is reported as a failing input
+            # (implementation) or as a model time-out (runner), the rest of the chunk is run in a fresh process
+            got = (ex.stdout or b'').decode('utf-8', 'replace').split('\n')
+            if got and got[-1] == '':
+                got.pop()
+            got = got[:len(lines)]
+            k = len(got)
+            if k >= len(lines):
+                return got
+            hang = '(model-timeout)' if is_model else \
+                   '(hang) ||| FAIL the implementation did not return within %d s on this case (process killed)' % timeout
+            rest = lines[k + 1:]
+            if _depth >= 3 or not rest:
+                tail = ['(not-run)' if is_model else '(not-run) ||| skip'] * len(rest)
+            else:
+                tail = run_lines(exe, rest, max(60, min(timeout, 300)), 1, args, _depth + 1)
+            return got + [hang] + tail
         out = p.stdout.decode('utf-8', 'replace').split('\n')
         if out and out[-1] == '':
             out.pop()
